@@ -10,6 +10,8 @@ use std::sync::Arc;
 
 struct Inner<T> {
     id: u64,
+    /// None = unbounded
+    cap: Option<usize>,
     q: UnsafeCell<VecDeque<T>>,
     senders: Cell<usize>,
     receivers: Cell<usize>,
@@ -49,9 +51,15 @@ impl std::error::Error for TryRecvError {}
 #[derive(Debug, PartialEq, Eq, Clone, Copy)]
 pub struct RecvError;
 
+/// Bounded channel: `send` blocks (in the simulator) while the queue is full.
+pub fn bounded<T>(cap: usize) -> (Sender<T>, Receiver<T>) {
+    let _rt = crate::RtGuard::new();
+    let i = Arc::new(Inner { id: crate::new_obj(), cap: Some(cap.max(1)), q: UnsafeCell::new(VecDeque::new()), senders: Cell::new(1), receivers: Cell::new(1) });
+    (Sender(i.clone()), Receiver(i))
+}
 pub fn unbounded<T>() -> (Sender<T>, Receiver<T>) {
     let _rt = crate::RtGuard::new();
-    let i = Arc::new(Inner { id: crate::new_obj(), q: UnsafeCell::new(VecDeque::new()), senders: Cell::new(1), receivers: Cell::new(1) });
+    let i = Arc::new(Inner { id: crate::new_obj(), cap: None, q: UnsafeCell::new(VecDeque::new()), senders: Cell::new(1), receivers: Cell::new(1) });
     (Sender(i.clone()), Receiver(i))
 }
 impl<T> std::fmt::Debug for Sender<T> {
@@ -79,19 +87,37 @@ impl<T> Sender<T> {
     pub fn send(&self, t: T) -> Result<(), SendError<T>> {
         let _rt = crate::RtGuard::new();
         yield_point("send");
-        locked(|c| {
-            if self.0.receivers.get() == 0 {
-                return Err(SendError(t));
+        let mut t = Some(t);
+        loop {
+            match enter() {
+                Mode::Outside | Mode::Ending => {
+                    if self.0.receivers.get() == 0 {
+                        return Err(SendError(t.take().unwrap()));
+                    }
+                    unsafe {
+                        (*self.0.q.get()).push_back(t.take().unwrap());
+                    }
+                    return Ok(());
+                }
+                Mode::Sim(mut c) => {
+                    if self.0.receivers.get() == 0 {
+                        return Err(SendError(t.take().unwrap()));
+                    }
+                    let full = self.0.cap.map(|cap| unsafe { (*self.0.q.get()).len() } >= cap).unwrap_or(false);
+                    if full {
+                        c.count("reach.bounded_channel_full");
+                        c.block(Status::Blocked, "send(full)", vec![self.0.id], false);
+                        continue;
+                    }
+                    unsafe {
+                        (*self.0.q.get()).push_back(t.take().unwrap());
+                    }
+                    c.log(0x60, self.0.id, 0);
+                    c.wake(self.0.id);
+                    return Ok(());
+                }
             }
-            unsafe {
-                (*self.0.q.get()).push_back(t);
-            }
-            if let Some(c) = c {
-                c.log(0x60, self.0.id, 0);
-                c.wake(self.0.id);
-            }
-            Ok(())
-        })
+        }
     }
     pub fn len(&self) -> usize {
         let _rt = crate::RtGuard::new();
@@ -133,9 +159,13 @@ impl<T> Clone for Receiver<T> {
 impl<T> Drop for Receiver<T> {
     fn drop(&mut self) {
         let _rt = crate::RtGuard::new();
-        let q = locked(|_| {
+        let q = locked(|c| {
             self.0.receivers.set(self.0.receivers.get() - 1);
             if self.0.receivers.get() == 0 {
+                // senders blocked on a full queue learn that nobody will ever receive
+                if let Some(c) = c {
+                    c.wake(self.0.id);
+                }
                 unsafe { std::mem::take(&mut *self.0.q.get()) }
             } else {
                 VecDeque::new()
@@ -153,6 +183,9 @@ impl<T> Receiver<T> {
             Some(t) => {
                 if let Some(c) = c {
                     c.log(0x63, self.0.id, 1);
+                    if self.0.cap.is_some() {
+                        c.wake(self.0.id);
+                    }
                 }
                 Ok(t)
             }
